@@ -254,7 +254,14 @@ def run(rep: vk.Report):
                         np_ref = (py[1], np.sum(np_values(w, vals)))
                 elif op == "dot":
                     other = r.choice([g.vec(w.size, 1), g.vec(None, 0)])
-                    model = f"v_dot {S.vobj(w)} {S.vobj(other)}"; py = attempt(lambda: w.dot(other))
+                    if type(other).__name__ == "MatrixVectorProduct" and hasattr(w, "_variables"):
+                        # x.dot(A @ y) with the product built beforehand: the API looks through the product object (v_dot_matvec)
+                        A_ = np.asarray(other.matrix, dtype=float)
+                        model = (f"v_dot_matvec {S.vobj(w)} {ser.lst(ser.lst(ser.q(float(t)) for t in row) for row in A_)} "
+                                 f"{S.vobj(other.vector)}")
+                    else:
+                        model = f"v_dot {S.vobj(w)} {S.vobj(other)}"
+                    py = attempt(lambda: w.dot(other))
                     if py[0] == "ok":
                         np_ref = (py[1], np.dot(np_values(w, vals), np_values(other, vals)))
                 elif op == "dot_matvec":
